@@ -15,6 +15,7 @@ import (
 	"verifharness/contract"
 	"verifharness/core"
 	"verifharness/memstore"
+	"verifharness/oracle"
 )
 
 type stream struct {
@@ -146,6 +147,9 @@ func init() {
 			ops = col.Operators
 		}
 		a, b := canonical(streams[0]), canonical(streams[1])
+		if a != b && streamsEqual(streams[0], streams[1], Scale(c.Series)) {
+			b = a // equal up to floating-point summation order
+		}
 		if a != b {
 			if (hasFeat(feats, "agg:topk") || hasFeat(feats, "agg:bottomk")) && TopkAmbiguous(c, expr, st) {
 				feats = append(feats, "topk-tie-not-judged")
@@ -166,4 +170,46 @@ func trunc(s string, n int) string {
 		return s[:n] + "..."
 	}
 	return s
+}
+
+// streamsEqual compares two streams step by step with the value tolerance of the
+// oracle library (the order of additions may differ between two executions).
+func streamsEqual(x, y stream, scale float64) bool {
+	toRes := func(s stream) *oracle.Res {
+		r := &oracle.Res{Type: "matrix"}
+		if s.err != nil {
+			r.Err = s.err
+			return r
+		}
+		m := map[string]*oracle.RSeries{}
+		var order []string
+		for _, v := range s.vecs {
+			for i, id := range v.SampleIDs {
+				var ls labels.Labels
+				if int(id) < len(s.series) {
+					ls = s.series[id]
+				}
+				k := fmt.Sprintf("%d|%s", id, ls.String())
+				if m[k] == nil {
+					m[k] = &oracle.RSeries{Labels: append(labels.Labels{{Name: "__id", Value: fmt.Sprint(id)}}, ls...)}
+					order = append(order, k)
+				}
+				m[k].Points = append(m[k].Points, oracle.Point{T: v.T, V: v.Samples[i]})
+			}
+		}
+		for _, k := range order {
+			r.Series = append(r.Series, *m[k])
+		}
+		return r
+	}
+	rx, ry := toRes(x), toRes(y)
+	// series IDs may differ between the two plans; compare by label set only
+	strip := func(r *oracle.Res) {
+		for i := range r.Series {
+			r.Series[i].Labels = r.Series[i].Labels[1:]
+		}
+	}
+	strip(rx)
+	strip(ry)
+	return oracle.Equal(rx, ry, oracle.DefaultTol(scale)) == ""
 }
